@@ -39,6 +39,8 @@ func (s step) String() string {
 		return fmt.Sprintf("p%d.block(index %d, size %d, %s)", s.P, s.Index, s.Size, s.Payload)
 	case "newpeer":
 		return fmt.Sprintf("newpeer(vote %d)", s.Size)
+	case "revote":
+		return fmt.Sprintf("p%d.repeats-extended-handshake(vote %d, x%d)", s.P, s.Size, 1+s.Index%4)
 	}
 	return fmt.Sprintf("%s(p%d)", s.Kind, s.P)
 }
@@ -114,8 +116,12 @@ func run(sp infoSpec, npeers int, votes []uint32, steps []step, opt ...bool) (fa
 		}
 		return ""
 	}
+	// the model's vote table: one vote per live connection (its first extended
+	// handshake)
+	modelVote := map[*pump.PP]uint32{}
 	addPeer := func(vote uint32) (*pump.PP, string) {
 		pp := w.AddPeer(pump.Caps{Fast: true, Extended: true}, false)
+		modelVote[pp] = vote
 		_, pv := pp.Msg(protocol.Extended0{Version: "x", MetadataSize: vote, Messages: map[string]uint8{"ut_metadata": 7}})
 		if pv != "" {
 			return pp, pv + describe()
@@ -158,6 +164,22 @@ func run(sp infoSpec, npeers int, votes []uint32, steps []step, opt ...bool) (fa
 			if _, f := addPeer(s.Size); f != "" {
 				return f, labels, hist
 			}
+		case "revote":
+			// a connection repeats its extended handshake with another size: one
+			// connection, one vote (storrent drops the peer)
+			if len(live) == 0 {
+				continue
+			}
+			pp := live[s.P%len(live)]
+			for k := 0; k < 1+int(s.Index%4); k++ {
+				if _, pv := pp.Msg(protocol.Extended0{Version: "x", MetadataSize: s.Size, Messages: map[string]uint8{"ut_metadata": 7}}); pv != "" {
+					return pv + describe(), labels, hist
+				}
+			}
+			if p := w.Drain(); p != "" {
+				return p + describe(), labels, hist
+			}
+			labels["extended-handshake-repeated"] = true
 		case "disconnect":
 			if len(live) > 1 {
 				live[s.P%len(live)].Disconnect()
@@ -254,11 +276,18 @@ func run(sp infoSpec, npeers int, votes []uint32, steps []step, opt ...bool) (fa
 	early := t.InfoComplete()
 	// ---- honest phase: a strict majority votes the true size; up to 3 rounds of
 	// tick, answer what was asked, deliver every block
-	nvotes := 0
-	for _, v := range tor.VerifInfoSizeVotes(t) {
-		nvotes += v
+	// (counted in the model - one vote per connection there ever was, votes are
+	// not withdrawn when a peer leaves -, not in storrent's own table: a table
+	// that counts a connection twice is what must show)
+	nvotes, trueVotes := 0, 0
+	for _, pp := range w.Peers {
+		if v, ok := modelVote[pp]; ok && v > 0 && v <= 128<<20 {
+			nvotes++
+			if v == size {
+				trueVotes++
+			}
+		}
 	}
-	trueVotes := tor.VerifInfoSizeVotes(t)[size]
 	var honest []*pump.PP
 	for i := 0; !t.InfoComplete() && (trueVotes*2 <= nvotes || len(honest) == 0) && i < 40; i++ {
 		pp, f := addPeer(size)
@@ -394,7 +423,11 @@ func TestC12Metadata(t *testing.T) {
 					steps = append(steps, step{Kind: "tick"})
 				}
 			case k == 8:
-				steps = append(steps, step{Kind: "newpeer", Size: rapid.SampledFrom(sizes).Draw(rt, "vote")})
+				if rapid.IntRange(0, 2).Draw(rt, "revote?") == 0 {
+					steps = append(steps, step{Kind: "revote", P: rapid.IntRange(0, 9).Draw(rt, "p"), Size: rapid.SampledFrom(sizes).Draw(rt, "vote"), Index: uint32(rapid.IntRange(0, 3).Draw(rt, "times"))})
+				} else {
+					steps = append(steps, step{Kind: "newpeer", Size: rapid.SampledFrom(sizes).Draw(rt, "vote")})
+				}
 			default:
 				steps = append(steps, step{Kind: "disconnect", P: rapid.IntRange(0, 9).Draw(rt, "p")})
 			}
